@@ -1,12 +1,30 @@
 CHECK = {
   'level': 'exploration',
-  'technique': 'bounded exhaustive enumeration of the input space on the real code (all days, all offsets, all short strings / edit neighbourhoods) against a reference calendar; ASan oracle',
-  'level_text': 'Complete enumeration of every day of years 1-9999 (x times of day), every second of 200 boundary days, every zone offset and spelling, and every string within 2 edits of 8 templates, executed on the real Date code; no sampling. Right level because the calendar arithmetic has a finite, enumerable domain.',
-  'level_note': 'Trusts g++/ASan, glibc gmtime_r as the independent calendar, TZ=UTC. Sub-second instants are covered on a boundary grid only.',
-  'rule': 'complete enumeration: every day 0001-01-01..9999-12-31 x times of day; every second of 200 days; every zone offset; 1-9 fraction digits; '
-          'all strings <=5 over the date alphabet and all 1-/2-edit neighbours and truncations of 8 date templates; distinct_nontrivial = distinct days / instants / offsets (parse strings are counted in evaluations only)',
-  'parts': [{'bin': 'c19_date', 'flavour': 'asan', 'deadline': {'quick': 600, 'thorough': 3000}}],
-  'bounds': {'quick': 'all 3652059 days x 3 times of day; 200 days x 86400 s; offsets -23:59..+23:59 x 3 spellings; parse edits: pairs within distance 6',
-             'thorough': 'all days x 10 times of day; 200 days x 86400 s with all formats; all edit pairs'},
-  'assumptions': ['TZ=UTC, LC_ALL=C', 'reference calendar = days-from-civil arithmetic cross-checked against glibc gmtime_r on every day', 'g++ -O2 + AddressSanitizer (slack after each NUL poisoned)'],
+  'technique': 'bounded exhaustive enumeration of the input space on the real code (all days, all offsets, all doubles within 3 steps of the millisecond-rounding ties, all short strings / edit neighbourhoods / structure vectors) against a reference calendar, in two time zones; ASan oracle; determinism under three heap fill bytes',
+  'level_text': 'Complete enumeration of every day of years 1-9999 (x times of day), every second of 200 distinct boundary days, the doubles within 3 steps of the '
+                'millisecond-rounding ties (x.0005/x.4995/x.9995 s) at second/day/year boundaries and before every year start, every zone offset in three spellings with and '
+                'without seconds, 1-9 fraction digits with eight zone forms, all executed on the real Date code under TZ=UTC and again under the fixed-offset zone TZ=VRF-05 '
+                '(UTC+05:00, no DST) where UTC and local time differ; every string within 2 edits of 8 templates, every structure vector (classes at the positions the ISO parser '
+                'inspects) of body length 8..22 x tails up to total length 40; HTTP-shaped strings re-parsed under three heap fill bytes. No sampling. Right level because the '
+                'calendar arithmetic has a finite, enumerable domain and the floating-point hazards sit at enumerable ties.',
+  'level_note': 'Trusts g++/ASan, glibc gmtime_r as the independent calendar (cross-checked on every day), glibc POSIX TZ strings. Sub-second instants: a grid of fractions plus the doubles '
+                'within 3 steps of each tie on the listed boundaries (thorough: before every day start and every second of the 200 days); other sub-second instants are not enumerated. '
+                '"To the millisecond" is read as: the FULL text is the exact rendering of the truncated or of a nearest millisecond, all fields from that one millisecond. '
+                'Local-time expectations (zone-less texts, Date(y,m,d,...)) are checked as documented behaviour under the two fixed zones only; half-hour zones are out of scope '
+                '(Date::localOffset works in whole hours). Values of the format-driven parser Date(str, fmt) are not compared (the statement is silent on them): ASan oracle only.',
+  'rule': 'complete enumeration: every day 0001-01-01..9999-12-31 x times of day; every second of 200 distinct days; doubles -3..+3 steps around the ms ties on 216 boundary instants and around '
+          'the two ties at every year start; every zone offset -23:59..+23:59 as +hh:mm and +hhmm, whole hours as +hh, with and without seconds, offset 0 also as Z and zone-less; 1-9 fraction digits x 6 digit patterns x 8 zone forms; '
+          'the value families again under TZ=VRF-05; all strings <=5 over the date alphabet, all 1-/2-edit neighbours and truncations of 8 date templates, structure vectors of body length 8..22 x tails; '
+          'distinct_nontrivial = distinct days / instants / offsets of the UTC pass (parse strings and the zone pass are counted in evaluations only)',
+  'parts': [{'bin': 'c19_date', 'flavour': 'asan', 'deadline': {'quick': 900, 'thorough': 4500}}],
+  'bounds': {'quick': 'UTC pass: all 3652059 days x 3 times of day (local texts at 12:00 only); 200 days x 86400 s (texts every 61st s); 216 boundary instants x (13 fractions + 3 ties x 7 doubles); '
+                      '9999 year starts x 2 ties x 7 doubles; offsets -23:59..+23:59 x 2 spellings + 47 whole hours x 5 days x 3 times of day x (with / without seconds) x (extended / basic); 9 x 6 fractions x 8 zone forms x 2 layouts x 2 instants. '
+                      'Zone pass (TZ=VRF-05): all days at 20:00:00 (fields and constructors), every day of 18 boundary years x 3 times of day with all texts, 200 days x every 61st second, the 216 x 34 fraction instants, all offsets, all fractions. '
+                      'Parsers: 14^0..14^5 strings x 5 parsers; template edits: pairs within distance 6; structure vectors: 4 classes on <=8 positions, body 8..22, 8 tails (2.0M strings, lengths 8..40); 8 templates x 16 tails; '
+                      '163k HTTP-shaped strings x 3 heap fill bytes',
+             'thorough': 'UTC pass: all days x 10 times of day with all texts; 200 days x 86400 s with all texts; as quick for fractions, plus the tie (7 doubles) before every one of the 3652059 day starts and the tie (3 doubles) before every second of the 200 days; '
+                         'zone pass: all days at 20:00:00 with all texts, 200 days x 86400 s (texts every 61st s), year-start ties, rest as quick. '
+                         'Parsers: all edit pairs; structure vectors: 6 classes, 16 tails (94M strings); HTTP-shaped strings of all edit pairs x 3 heap fill bytes'},
+  'assumptions': ['pass 1 TZ=UTC, pass 2 TZ=VRF-05 (fixed UTC+05:00, no DST); LC_ALL=C', 'reference calendar = days-from-civil arithmetic cross-checked against glibc gmtime_r on every day',
+                  'g++ -O2 + AddressSanitizer (slack after each NUL poisoned); ASan honours ASAN_OPTIONS=malloc_fill_byte (verified by a probe in every child)'],
  }
